@@ -209,6 +209,11 @@ ApplyDirect(e) ==
         tol(i) == IF two \/ pin \/ e.dkind # "slit" THEN "1e-12" ELSE RowTol(e.q[i], L[i], W[i])
         allzero == IF two THEN ~e.haswidth
                    ELSE \A i \in 1..n : FEq(sigma[i], Zero) /\ FEq(L[i], Zero) /\ FEq(W[i], Zero)
+        \* the support clauses follow the widths the data carry, whatever class the data were given: a point
+        \* with a non-zero width needs its window even when other points have none
+        clsW == IF e.dkind = "pinhole" /\ \E i \in 1..n : ~FEq(sigma[i], Zero) THEN "Pinhole1D"
+                ELSE IF e.dkind = "slit" /\ \E i \in 1..n : ~(FEq(L[i], Zero) /\ FEq(W[i], Zero)) THEN "Slit1D"
+                ELSE cls
         flat == FVecBits(e.unsmeared, FVecConst(Len(e.unsmeared), e.unsmeared[1]))
         lin(c) == FVecShift(c.background, FVecScale(c.scale, e.base))
     IN
@@ -220,7 +225,7 @@ ApplyDirect(e) ==
            THEN (IF e.haswidth THEN Checks2D(e.qx, e.qy, e.dqx, e.dqy, Lower(e.acc), e.qxc, e.qyc)
                  ELSE Bad(FVecBits(e.qxc, e.qx) /\ FVecBits(e.qyc, e.qy), "perfect-qcalc-is-q", ""))
            ELSE QcalcPositive(e.qcalc)
-                \o (IF cls \in {"Pinhole1D", "Slit1D"} THEN Covers(cls, e.q, sigma, L, W, e.qcalc) ELSE <<>>))
+                \o (IF clsW \in {"Pinhole1D", "Slit1D"} THEN Covers(clsW, e.q, sigma, L, W, e.qcalc) ELSE <<>>))
        \o (IF allzero
            THEN Bad(FVecBits(e.base, e.unsmeared), "zero-width-identity", ToString(<<"resolution class", cls>>))
            ELSE IF two THEN <<>>
